@@ -131,6 +131,13 @@ def install():
             EV.append(("randset", i, [f.fullname for f in rs.all_fields()], len(rs.constraints()),
                        len(rs.soft_constraints()),
                        None if rs.rand_order_l is None else [[f.fullname for f in g] for g in rs.rand_order_l]))
+        used = {}
+        for rs in ri.randsets():
+            for f in rs.all_fields():
+                used[f.fullname] = bool(f.is_used_rand)
+        for f in ri.unconstrained():
+            used[f.fullname] = bool(f.is_used_rand)
+        EV.append(("used", used))
         EV.append(("unconstrained", [f.fullname for f in ri.unconstrained()]))
         EV.append(("bounds", {f.fullname: [list(r) for r in b.domain.range_l] for f, b in bound_m.items()
                               if hasattr(f, "fullname") and hasattr(b, "domain")}))
@@ -328,13 +335,19 @@ def run_call(o, scn, names, call):
     return outcome, exc, list(EV)
 
 
+LAST_USED = {}
+
+
 def split_events(events):
     """events of one call -> {'randsets':[...recorded...], 'unconstrained':[...], 'bounds':{...}, 'btors':[{...}]}"""
     rsets, uncon, bounds, btors, draws = [], [], {}, [], []
+    LAST_USED.clear()
     cur = None
     for e in events:
         if e[0] == "randset":
             rsets.append({"fields": e[2], "n_hard": e[3], "n_soft": e[4], "order": e[5]})
+        elif e[0] == "used":
+            LAST_USED.update(e[1])
         elif e[0] == "unconstrained":
             uncon = e[1]
         elif e[0] == "bounds":
